@@ -951,11 +951,23 @@ class ICalendarFile(File):
                     if isinstance(p, list):
                         # The property occurs more than once
                         for v in p:
-                            yield v.to_ical()
+                            yield _index_value(v)
                     elif p is not None:
-                        yield p.to_ical()
+                        yield _index_value(p)
             else:
                 raise AssertionError(f"segments: {segments!r}")
+
+
+def _index_value(p) -> bytes:
+    """Serialize a property value for the index.
+
+    The TZID parameter is not part of the index, so date-times that carry a
+    time zone are stored as the same instant in UTC.
+    """
+    dt = getattr(p, "dt", None)
+    if isinstance(dt, datetime) and dt.tzinfo is not None:
+        return vDDDTypes(dt.astimezone(timezone.utc)).to_ical()
+    return p.to_ical()
 
 
 def as_tz_aware_ts(dt, default_timezone: Union[str, timezone]) -> datetime:
